@@ -87,6 +87,19 @@ def obligations(tier):
                   "not crashed, exit 0, and then descriptor 1 received exactly F<sender>NUL T<recipient>NUL NUL after the message descriptor "
                   "was closed; otherwise a Z.../D... string",
             expect_witnesses=["queued", "failed_by_caller", "failed_by_write", "qq_crashed", "qq_custom_error"]),
+        Obl("stripvdom", "stripvdom.c",
+            progs=[Prog("qmail-send.c", nomain=True)],
+            repo=["str_rchr.c"],
+            grid=[{"R": r} for r in ([5, 6] if tier == "quick" else [5, 6, 7, 8])],
+            unwind_default=lambda p: p["R"] + 4, timeout=900,
+            functions=["qmail-send.c:stripvdomprepend", "str_rchr.c:str_rchr"],
+            cuts=["constmap -> case-insensitive exact-match lookup over a symbolic two-entry table (C10 constmap_lemma)"],
+            assumes=["recipient: any R bytes without NUL; virtualdomains: 0..2 entries, keys <= 4 bytes, prepends <= 2 bytes, all symbolic"],
+            outside=["more than two entries; longer keys, prepends and recipients"],
+            claim="stripvdomprepend removes exactly the prefix that the most specific matching virtualdomains entry added (whole domain, dot-suffixes, "
+                  "catch-all, in that order); an exception entry or no entry removes nothing",
+            expect_witnesses=["prefix_removed", "exception_entry_keeps_the_name", "no_at", "not_virtual",
+                              "exception_under_a_catch_all_whose_prepend_the_name_happens_to_start_with"]),
         Obl("addbounce", "addbounce.c",
             progs=[Prog("qmail-send.c", nomain=True)],
             repo=STRALLOC + FMT + ["str_rchr.c", "open_append.c"],
